@@ -172,8 +172,10 @@ func RunSoloScript(r sim.Src, mons []*sim.Mon, keepLog bool, sh SoloShape) *Solo
 				nd.Receive(s.RecoveryRequest(j, d.ViewNumber))
 			}
 		case 7: // supply a missing transaction
-			if len(d.MissingTransactions) > 0 {
-				if tx, ok := s.W.TxByHash(d.MissingTransactions[r.Intn("missing", len(d.MissingTransactions))]); ok {
+			if wl := sim.Wanted(nd); len(wl) > 0 { // the application's own record of RequestTx calls, not the library's list
+				h := wl[r.Intn("missing", len(wl))]
+				delete(nd.Want, h)
+				if tx, ok := s.W.TxByHash(h); ok {
 					nd.Transaction(tx)
 				}
 			}
@@ -294,8 +296,9 @@ func RunViewStorm(r sim.Src, mons []*sim.Mon, keepLog bool) *sim.World {
 				nd.Receive(s.Recovery(o[0], v+1, cvs...))
 			}
 		default:
-			if len(nd.D.MissingTransactions) > 0 {
-				if tx, ok := s.W.TxByHash(nd.D.MissingTransactions[0]); ok {
+			if wl := sim.Wanted(nd); len(wl) > 0 {
+				delete(nd.Want, wl[0])
+				if tx, ok := s.W.TxByHash(wl[0]); ok {
 					nd.Transaction(tx)
 				}
 			}
@@ -672,8 +675,10 @@ func RunWatchOnlySolo(r sim.Src, mons []*sim.Mon, keepLog bool) *sim.World {
 				nd.Timeout(s.H(), s.V()) // the application may still call it
 			}
 		case 4:
-			if len(nd.D.MissingTransactions) > 0 {
-				if tx, ok := s.W.TxByHash(nd.D.MissingTransactions[r.Intn("missing", len(nd.D.MissingTransactions))]); ok {
+			if wl := sim.Wanted(nd); len(wl) > 0 {
+				h := wl[r.Intn("missing", len(wl))]
+				delete(nd.Want, h)
+				if tx, ok := s.W.TxByHash(h); ok {
 					nd.Transaction(tx)
 				}
 			} else {
